@@ -21,8 +21,16 @@ theorem checker_discipline :
     OLP.Gen.sessionRule.filter (fun r => r.fn == "txChecker") =
     sessionRule.filter (fun r => r.fn == "txChecker") := by decide
 
-/-- the calls that overwrite in-memory option copies: the governance update functions are
-    reachable from ProcessCheck (S13, a known finding of this property) -/
+/-- the calls that overwrite in-memory option copies: start-up code, InitChain, BeginBlock's
+    `feePool.SetupOpt` and the governance update functions; the latter run in `ValidateAndUpdate`
+    mode only inside `runFinalizeProposal` … -/
 theorem volatile_setters_as_classified : OLP.Gen.volatileSets = volatileSets := by decide
+
+/-- … which no `ProcessCheck` calls (premise `CheckNoVset`; S13 was repaired by the fix: commit
+    "do not run proposal finalisation in the mempool check") -/
+theorem check_path_runs_no_finalisation :
+    OLP.Gen.checkRuns.all (fun r => r.what != "runFinalizeProposal") = true ∧
+    (OLP.Gen.checkRuns.filter (fun r => r.fn == "action/governance.FinalizeProposal.ProcessCheck")).map
+      (fun r => r.what) = [""] := by decide
 
 end OLP.Props.C07.Facts
